@@ -133,7 +133,7 @@ fn c05_victim_payload_after_dirty_clear() {
 // =================================================================================================
 // K1 — header names compare case-insensitively; repeated headers are joined in order
 // =================================================================================================
-// @verif prop=C02 tier=quick replay=none mem=10 bounds="`Host` in any of its 16 casings, value 2 symbolic bytes; typed getter and get() in another casing"
+// @verif prop=C02 tier=quick replay=none mem=16 bounds="`Host` in any of its 16 casings, value 2 symbolic bytes; typed getter and get() in another casing"
 #[kani::proof]
 #[kani::stub(core::str::from_utf8, stubs::from_utf8_model)]
 #[kani::unwind(12)]
